@@ -12,7 +12,10 @@ CONSTANTS MaxOps,    \* operations per run (closes that release the remaining vi
           AdvSizes,  \* lengths for advance / scribble
           Avails,    \* bytes available in the reader of read_buffer
           CapAts,    \* arguments of cap_at
-          CapAts2    \* chains of two different cap_at arguments out of this set
+          CapAts2,   \* chains of two different cap_at arguments out of this set
+          OverKinds, \* counts above what is left: subset of {"plus1", "total", "total1"} (remaining + 1, size of the
+                     \* view when it already holds bytes, size of the view + 1)
+          TouchCaps  \* cap_at arguments for intermediates dropped without use (besides the uncapped one)
 
 Fresh(n) == [j \in 1..n |-> 10 * (ops + 1) + j]
 Mem0(c, l) == [i \in 1..c |-> IF i <= l THEN 100 + i ELSE 200 + i]
@@ -33,11 +36,18 @@ NClose == Step([a |-> "close"])                      \* always possible: every v
 NCloseInit == ops < MaxOps /\ Step([a |-> "closeinit"])
 NUnwind == ops < MaxOps /\ Step([a |-> "unwind"])
 NRead == ops < MaxOps /\ \E n \in Avails, ks \in Chains : Step([a |-> "read", bs |-> Fresh(n), ks |-> ks])
-NReadClose == ops < MaxOps /\ \E n \in Avails : Step([a |-> "readclose", bs |-> Fresh(n)])
+NReadClose == ops < MaxOps /\ \E n \in Avails : Step([a |-> "readclose", bs |-> Fresh(n), claim |-> 0])
+OverCounts == IF phase = "open"
+              THEN {c \in ({Rem(Top) + 1 : x \in OverKinds \cap {"plus1"}} \cup {Top.spare : x \in OverKinds \cap {"total"}}
+                           \cup {Top.spare + 1 : x \in OverKinds \cap {"total1"}}) : c > Rem(Top)}
+              ELSE {}
+NOverAdvance == ops < MaxOps /\ \E c \in OverCounts : Step([a |-> "overadvance", n |-> c])
+NReadOver == ops < MaxOps /\ \E c \in OverCounts : Step([a |-> "readclose", bs |-> Fresh(2), claim |-> c])
+NTouch == ops < MaxOps /\ \E ks \in {<<>>} \cup {<<k>> : k \in TouchCaps} : Step([a |-> "touch", ks |-> ks])
 NFinal == Step([a |-> "final"])
 
 Next == \/ NSetup \/ NOpen \/ NWrite \/ NExtend \/ NAdvance \/ NScribble
-        \/ NClose \/ NCloseInit \/ NUnwind \/ NRead \/ NReadClose \/ NFinal
+        \/ NClose \/ NCloseInit \/ NUnwind \/ NRead \/ NReadClose \/ NOverAdvance \/ NReadOver \/ NTouch \/ NFinal
 
 Spec == Init /\ [][Next]_vars
 
